@@ -50,3 +50,4 @@ claim('C04', 'proof',
 META['C03'] = dict(level='proof', level_text='', level_note='', explanation='wip', assumptions=[], technique=TECH)
 META['C05'] = dict(level='proof', level_text='', level_note='', explanation='wip', assumptions=[], technique=TECH)
 META['C20'] = dict(level='proof', level_text='', level_note='', explanation='wip', assumptions=[], technique=TECH)
+META['C07'] = dict(level='proof', level_text='', level_note='', explanation='wip', assumptions=[], technique=TECH)
